@@ -34,6 +34,9 @@ pub enum Step {
     SetPolicy(u8),
     /// register_useful_peer for the document: fails when the document does not exist
     RegisterPeer(u8),
+    /// remove the document (through the actor: drop_replica, which releases one handle and is refused while another
+    /// handle is still open); a removed document has no capability at all
+    Drop(u8),
 }
 
 #[derive(Serialize, Deserialize, Clone, Debug)]
@@ -73,11 +76,11 @@ impl Prop for C07 {
 
     fn strategy(tier: Tier) -> BoxedStrategy<Case> {
         let max = tier.pick(25, 60);
-        let d = || 0u8..3;
+        let d = || prop_oneof![3 => Just(0u8), 1 => 1u8..3];
         let step = prop_oneof![
             3 => d().prop_map(Step::ImportRead),
             3 => d().prop_map(Step::ImportWrite),
-            2 => d().prop_map(Step::Open),
+            5 => d().prop_map(Step::Open),
             1 => d().prop_map(Step::Close),
             4 => d().prop_map(Step::LocalInsert),
             2 => d().prop_map(Step::LocalDelete),
@@ -86,6 +89,7 @@ impl Prop for C07 {
             1 => Just(Step::Reopen),
             1 => d().prop_map(Step::SetPolicy),
             1 => d().prop_map(Step::RegisterPeer),
+            1 => d().prop_map(Step::Drop),
         ];
         let plain = vec(step.clone(), 1..=max);
         // the downgrade scenario with random steps in between
@@ -268,6 +272,17 @@ fn check_store(ctx: &mut Ctx, c: &Case, o: &mut Outcome) -> R<()> {
                 st = st.reopen()?;
                 o.class("reopen");
             }
+            Step::Drop(d) => {
+                let du = *d as usize;
+                if let Err(e) = st.store.remove_replica(&ids[du]) {
+                    o.fail("C07/drop", format!("step {i}: removing a closed document failed: {e:?}"));
+                    break;
+                }
+                caps[du] = Cap::Absent;
+                models[du] = Model::default();
+                prog[du] = Progress::default();
+                o.class("document-removed");
+            }
             Step::SetPolicy(d) | Step::RegisterPeer(d) => {
                 let du = *d as usize;
                 let r = if matches!(s, Step::SetPolicy(_)) {
@@ -444,6 +459,26 @@ fn check_actor(ctx: &mut Ctx, c: &Case, o: &mut Outcome) -> R<()> {
                     h = act::spawn(store);
                     handles = [0; 3];
                     o.class("reopen");
+                }
+                Step::Drop(d) => {
+                    let du = *d as usize;
+                    let r = h.drop_replica(ids[du]).await;
+                    if handles[du] > 0 {
+                        handles[du] -= 1;
+                    }
+                    let should = handles[du] == 0;
+                    if r.is_ok() != should {
+                        o.fail("C07/drop", format!("step {i}: drop_replica returned ok={} with {} handles left open", r.is_ok(), handles[du]));
+                        break;
+                    }
+                    if should {
+                        caps[du] = Cap::Absent;
+                        models[du] = Model::default();
+                        prog[du] = Progress::default();
+                        o.class("document-removed");
+                    } else {
+                        o.class("drop-refused-still-open");
+                    }
                 }
                 Step::SetPolicy(d) | Step::RegisterPeer(d) => {
                     let du = *d as usize;
